@@ -92,7 +92,7 @@ func c09Other(g *GenCfg, r *RNG, goType, field string) interface{} {
 
 func init() {
 	campaigns["C09"] = func(c *Ctx) {
-		c.Rule = "items generated type-directed over the whole vocabulary (all 14 structs, by pointer and by value, IRIs, links, item lists and IRI lists, id-less embedded objects, 1-3 language values incl. repeated language references, nesting depth <= 2): (1) every item against itself (two independently built copies) -> true; (2) every nil kind against every nil kind -> true, and against non-nil items in both orders -> false; (3) a copy with a different id (host, path or query) or a type differing in more than case -> false, a type differing only in case -> true; (4) for every property of the object core other than media type and source, and actor/object/target/result/origin/instrument of activities: a copy with that property changed to a different value (both orders -> false) or removed / added (the order whose second argument carries the value -> false); (5) IRI vs object of the same id, value vs pointer, random unrelated pairs: correspondence only."
+		c.Rule = "items generated type-directed over the whole vocabulary (all 14 structs, by pointer and by value, IRIs, links, item lists and IRI lists, id-less embedded objects, 1-3 language values incl. repeated language references, nesting depth <= 2): (1) every item against itself (two independently built copies) -> true; (2) every nil kind against every nil kind -> true, and against non-nil items in both orders -> false; (3) a copy with a different id (host, path or query) or a type differing in more than case -> false, a type differing only in case -> true; (4) for every property of the object core other than media type and source, and actor/object/target/result/origin/instrument of activities: a copy with that property changed to a different value (both orders -> false) or removed / added (the order whose second argument carries the value -> false); (4b) systematically, on minimal values: every struct x every type name of its family (incl. the generic names Object, Activity, Actor, ...) x every listed property, changed and one-sided; (5) IRI vs object of the same id, value vs pointer, random unrelated pairs: correspondence only."
 		cfg := &GenCfg{MaxDepth: 2, Density: 18, ValueNodes: true, Links: true, EmptyTypes: true, MultiLang: true, RepeatLang: true, Zones: true}
 		n := c.N(700, 15000)
 		for i := 0; i < n; i++ {
@@ -182,6 +182,42 @@ func init() {
 			}
 			if i%5 == 0 {
 				c09Emit(c, c09Case{A: x, B: cfg.genNode(c.R, allGoTypes[c.R.Intn(len(allGoTypes))], 1, false), Why: "mixed/unrelated"})
+			}
+		}
+		// systematic: every struct x every type name of its family x every listed property, on minimal values:
+		// changed (both orders unequal), present on one side only (unequal in at least one order)
+		for _, goType := range objectGoTypes {
+			props := append([]string{}, c09Core...)
+			if goType == "Activity" {
+				props = append(props, c09Activity...)
+			}
+			for ti, tn := range vocab[goType] {
+				for pi, field := range props {
+					if !c.Thorough() && (ti+pi)%3 != int(c.Seed%3) && ti != 0 {
+						continue // the quick tier takes the generic name of each family fully and a third of the rest
+					}
+					if fieldKind(goType, field) == "" {
+						continue
+					}
+					v1 := c09Other(cfg, c.R, goType, field)
+					v2 := c09Other(cfg, c.R, goType, field)
+					if v1 == nil || v2 == nil {
+						continue
+					}
+					id := cfg.nextID("sys")
+					mk := func(v interface{}) T {
+						f := T{"ID": T{"s": id}, "Type": T{"s": tn}}
+						if v != nil {
+							f[field] = v
+						}
+						return T{"t": goType, "ptr": true, "f": f}
+					}
+					x, y, z := mk(v1), mk(v2), mk(nil)
+					c09Emit(c, c09Case{A: x, B: y, Want: "false", Why: "systematic/changed " + field})
+					c09Emit(c, c09Case{A: y, B: x, Want: "false", Why: "systematic/changed " + field})
+					c09EmitOneOrder(c, x, z, "systematic/one-sided "+field)
+					c09Emit(c, c09Case{A: x, B: cloneTree(x), Want: "true", Why: "systematic/copy"})
+				}
 			}
 		}
 		for _, a := range nilKinds() {
